@@ -220,6 +220,19 @@ def main():
     budget = 240 if tier == "quick" else 1500
     deadline = t0 + budget
     log = []
+    # hard watchdog: every loop of a check polls ctx.time_left(), but a generator that never returns would not; a run
+    # that is still alive long after its budget is a harness fault (exit 2: neither "held" nor "violated")
+    import signal
+
+    def _watchdog(signum, frame):
+        print("TIMEOUT: check %s still running %ds after its %ds budget (harness fault, no verdict)" % (prop, 900, budget))
+        sys.stdout.flush()
+        os._exit(2)
+    try:
+        signal.signal(signal.SIGVTALRM, _watchdog)
+        signal.setitimer(signal.ITIMER_VIRTUAL, budget + 900)     # CPU time of this process, so a loaded machine is no fault
+    except (ValueError, OSError):
+        pass
 
     mod = importlib.import_module("props." + prop)
 
